@@ -329,13 +329,6 @@ _NGLOB_WRITE = _re.compile(
     r"DROP\s+TABLE(?:\s+IF\s+EXISTS)?|ALTER\s+TABLE|CREATE\s+TRIGGER[^;]*?\bON)\s+nglob\b[^;]*",
     _re.IGNORECASE | _re.DOTALL)
 
-# (file, enclosing function, statement with whitespace normalised): what model/GlobRows.v's
-# operations OAdd / OPersist / OReset stand for.
-EXPECTED_NGLOB_WRITES = [
-    ("stepup/core/step.py", "Step.add_nglob", "INSERT INTO nglob(node, pattern, regex, data) VALUES (?, ?, ?, ?)"),
-    ("stepup/core/step.py", "Step.reset_for_rerun", "DELETE FROM nglob WHERE node = ?"),
-    ("stepup/core/workflow.py", "Workflow.persist_nglob_matches", "UPDATE nglob SET data = ? WHERE i = ?"),
-]
 # callers of the writers: (file, function) that may call them
 EXPECTED_NGLOB_CALLERS = {
     "add_nglob": [("stepup/core/workflow.py", "Workflow.register_nglob")],
@@ -382,34 +375,123 @@ def translate_nglob_sites():
     facts = {"writes": sorted(set(writes)), "node_deletes": sorted(set(node_deletes)),
              "callers": {k: sorted(set(v)) for k, v in callers.items()}, "ddl": ddl}
     errs = []
-    extra = [w for w in facts["writes"] if w not in EXPECTED_NGLOB_WRITES]
-    missing = [w for w in EXPECTED_NGLOB_WRITES if w not in facts["writes"]]
-    for rel, fn, stmt in extra:
-        errs.append(f"unexpected statement writing the nglob table in {rel}:{fn}: {stmt!r} "
-                    "(model/GlobRows.v knows INSERT in Step.add_nglob, UPDATE data in persist_nglob_matches, "
-                    "DELETE of all rows of a step in Step.reset_for_rerun)")
-    for rel, fn, stmt in missing:
-        errs.append(f"expected statement not found in {rel}:{fn}: {stmt!r}")
-    if facts["ddl"] != [_NGLOB_DDL]:
+    # ---- statement-level translation of every writer ------------------------------------------
+    model = {"register_pre_delete": [], "reset_deletes_rows": False, "insert_sites": [], "update_sites": []}
+    colcode = {"node": 1, "pattern": 2, "regex": 3}
+    for rel, fn, stmt in facts["writes"]:
+        try:
+            parsed = parse_nglob_write(stmt)
+        except TranslatorError as e:
+            errs.append(f"{rel}:{fn}: {e}")
+            continue
+        where = f"{rel}:{fn}: {stmt!r}"
+        if parsed[0] == "insert":
+            if sorted(parsed[1]) != ["data", "node", "pattern", "regex"]:
+                errs.append(f"{where}: an INSERT that does not fill exactly node, pattern, regex, data")
+            elif fn not in ("Step.add_nglob", "Workflow.register_nglob"):
+                errs.append(f"{where}: rows are inserted outside register_nglob / add_nglob (no model operation)")
+            else:
+                model["insert_sites"].append(fn)
+        elif parsed[0] == "update":
+            if fn == "Workflow.persist_nglob_matches" and parsed[1] == ["data"] and parsed[2] == ["i"]:
+                model["update_sites"].append(fn)
+            else:
+                errs.append(f"{where}: an UPDATE other than `SET data WHERE i` in persist_nglob_matches (no model operation)")
+        else:
+            cols = parsed[1]
+            if fn == "Step.reset_for_rerun" and cols == ["node"]:
+                model["reset_deletes_rows"] = True
+            elif fn == "Workflow.register_nglob" and cols and all(c in colcode for c in cols) \
+                    and not model["register_pre_delete"]:
+                # translated: the registration first deletes the rows that agree with it on these columns
+                model["register_pre_delete"] = sorted(colcode[c] for c in cols)
+            else:
+                errs.append(f"{where}: a DELETE that is none of: all rows of the step in reset_for_rerun; rows "
+                            "agreeing with the new registration on node/pattern/regex in register_nglob")
+    if len(model["insert_sites"]) != 1:
+        errs.append(f"expected exactly one INSERT INTO nglob on the register_nglob path, found {model['insert_sites']!r}")
+    if model["update_sites"] != ["Workflow.persist_nglob_matches"]:
+        errs.append(f"persist_nglob_matches no longer rewrites `data` of one row: {model['update_sites']!r}")
+    if _norm_sql(" ".join(facts["ddl"])).lower() != _NGLOB_DDL.lower() or len(facts["ddl"]) != 1:
         errs.append(f"DDL of the nglob table changed: {facts['ddl']!r}")
-    if facts["node_deletes"] != [("stepup/core/trellis.py", "Trellis.delete_detached", "DELETE FROM node where i = ?")]:
+    nd = [(rel, fn, _re.sub(r"\s+", " ", st).lower()) for rel, fn, st in facts["node_deletes"]]
+    if [(a, b) for a, b, _ in nd] != [("stepup/core/trellis.py", "Trellis.delete_detached")] \
+            or not _re.fullmatch(r"delete from node where i = (\?|:\w+)", nd[0][2]):
         errs.append(f"node rows are deleted (ON DELETE CASCADE removes nglob rows) at unexpected sites: {facts['node_deletes']!r}")
     for name, exp in EXPECTED_NGLOB_CALLERS.items():
         for rel, fn in facts["callers"][name]:
             if not any(rel == e_rel and (e_fn is None or e_fn == fn) for e_rel, e_fn in exp):
                 errs.append(f"{name} is called from an unexpected place: {rel}:{fn}")
-    # register_nglob itself: the only database writes are the scratch table path_list and add_nglob
+    # register_nglob itself: besides the translated nglob statements it may write the scratch table
+    # path_list and call add_nglob / watch_nglob_dirs; the pre-delete must precede the insertion
     fn = find_function(parse_module(WF), "register_nglob", cls="Workflow")
-    sql = [_norm_sql(c) for c in (x.value for x in ast.walk(fn) if isinstance(x, ast.Constant) and isinstance(x.value, str))
-           if _re.match(r"\s*(DELETE|INSERT|UPDATE|REPLACE|DROP|ALTER)\b", c, _re.IGNORECASE)]
-    if sql != ["DELETE FROM path_list", "INSERT INTO path_list VALUES (?)"]:
-        errs.append(f"register_nglob writes the database in an unexpected way: {sql!r}")
-    calls = [ast.unparse(n.func) for n in ast.walk(fn) if isinstance(n, ast.Call)
-             and isinstance(n.func, ast.Attribute) and isinstance(n.func.value, ast.Name)
-             and n.func.value.id in ("step", "self")]
-    if sorted(calls) != ["self.watch_nglob_dirs", "step.add_nglob"]:
-        errs.append(f"register_nglob calls unexpected methods of the step / workflow: {sorted(calls)!r}")
+    ins_line, del_line = None, None
+    for x in ast.walk(fn):
+        if isinstance(x, ast.Constant) and isinstance(x.value, str):
+            c = _norm_sql(x.value)
+            if _re.match(r"(?i)\s*(DELETE|INSERT|UPDATE|REPLACE|DROP|ALTER)\b", c):
+                if _re.search(r"(?i)\bnglob\b", c):
+                    if _re.match(r"(?i)\s*DELETE", c):
+                        del_line = x.lineno
+                    elif _re.match(r"(?i)\s*INSERT", c):
+                        ins_line = x.lineno
+                elif not _re.search(r"(?i)\b(FROM|INTO)\s+path_list\b", c):
+                    errs.append(f"register_nglob writes another table: {c!r}")
+        if isinstance(x, ast.Call) and isinstance(x.func, ast.Attribute) and isinstance(x.func.value, ast.Name) \
+                and x.func.value.id in ("step", "self"):
+            name = ast.unparse(x.func)
+            if name == "step.add_nglob":
+                ins_line = x.lineno if "Step.add_nglob" in model["insert_sites"] else ins_line
+            elif name != "self.watch_nglob_dirs":
+                errs.append(f"register_nglob calls an unexpected method of the step / workflow: {name}")
+    if ins_line is None:
+        errs.append("register_nglob no longer inserts the registration")
+    elif del_line is not None and del_line > ins_line:
+        errs.append("register_nglob deletes rows AFTER inserting the new one (not translatable)")
+    facts["model"] = model
     return facts, ("; ".join(errs) if errs else None)
+
+
+_SQLPARAM = r"(?:\?\d*|[:@$]\w+)"
+
+
+def _where_cols(text, what):
+    if text is None:
+        raise TranslatorError(f"{what}: a write without WHERE touches every row (not translatable)")
+    cols = []
+    for cond in _re.split(r"(?i)\s+AND\s+", text.strip()):
+        m = _re.fullmatch(rf"(?i)\(?\s*(?:nglob\.)?(\w+)\s*(?:=|==|IS)\s*{_SQLPARAM}\s*\)?", cond.strip())
+        if not m:
+            raise TranslatorError(f"{what}: cannot translate the condition {cond!r}")
+        cols.append(m.group(1).lower())
+    return sorted(cols)
+
+
+def parse_nglob_write(stmt):
+    """One SQL statement that writes nglob, as structure: ('insert', cols) | ('update', set cols,
+    where cols) | ('delete', where cols). Keyword case, whitespace, parameter style (?, ?1, :name),
+    `nglob.` qualification and the order of columns / conditions do not matter."""
+    s = _norm_sql(stmt).rstrip(";").strip()
+    m = _re.fullmatch(r"(?i)DELETE FROM nglob(?: WHERE (.*))?", s)
+    if m:
+        return ("delete", _where_cols(m.group(1), s))
+    m = _re.fullmatch(r"(?i)INSERT INTO nglob ?\(([^)]*)\) ?VALUES ?\(([^)]*)\)", s)
+    if m:
+        cols = [c.strip().lower() for c in m.group(1).split(",")]
+        vals = [v.strip() for v in m.group(2).split(",")]
+        if len(cols) != len(vals) or not all(_re.fullmatch(_SQLPARAM, v) for v in vals):
+            raise TranslatorError(f"{s!r}: INSERT values are not one parameter per column")
+        return ("insert", cols)
+    m = _re.fullmatch(r"(?i)UPDATE nglob SET (.*?) WHERE (.*)", s)
+    if m:
+        sets = []
+        for a in m.group(1).split(","):
+            mm = _re.fullmatch(rf"(?i)\s*(\w+)\s*=\s*{_SQLPARAM}\s*", a)
+            if not mm:
+                raise TranslatorError(f"{s!r}: cannot translate the assignment {a!r}")
+            sets.append(mm.group(1).lower())
+        return ("update", sorted(sets), _where_cols(m.group(2), s))
+    raise TranslatorError(f"cannot translate the statement {s!r}")
 
 
 def generate(check_skeletons=True):
@@ -471,6 +553,10 @@ def generate(check_skeletons=True):
     L.append("(* skeletons: " + ", ".join(f"{k}={v}" for k, v in sorted(skel.items())) + " *)")
     L.append("(* every statement of stepup/core that writes the nglob table (model/GlobRows.v: OAdd, OReset, OPersist;"
              " OPurge is the ON DELETE CASCADE of Trellis.delete_detached): (file, function, statement) *)")
+    L.append(f"(* translated: register_nglob first deletes the rows that agree with the new registration on these"
+             f" columns (1 node, 2 pattern, 3 regex; [] = it deletes nothing); Step.reset_for_rerun deletes the rows of the step *)")
+    L.append("Definition register_pre_delete : list N := [" + "; ".join(str(c) for c in sites["model"]["register_pre_delete"]) + "].")
+    L.append(f"Definition reset_deletes_rows : bool := {'true' if sites['model']['reset_deletes_rows'] else 'false'}.")
     L.append("Definition nglob_writes : list (str * (str * str)) := [\n  "
              + ";\n  ".join(f"({coq_str(a)}, ({coq_str(b)}, {coq_str(c)})) (* {a}:{b}: {c} *)" for a, b, c in sites["writes"])
              + "].")
